@@ -109,6 +109,24 @@ func (w *worker) runSmart() {
 								}
 							case "mstr":
 								_ = sr.GetMetricsString()
+							case "drec":
+								_ = det.RecordOperation(context.Background(), rebalancing.OperationType(((op.A%3)+3)%3), 1<<20)
+							case "dfeat":
+								f := det.ExtractFeatures()
+								_ = det.DetectWorkloadType()
+								if tot, inWin, _ := det.GetStats(); tot < 0 || inWin < 0 || inWin > tot {
+									w.invariant("detector GetStats: total %d, in window %d", tot, inWin)
+								}
+								if f.DeleteRatio < 0 || f.DeleteRatio > 1 {
+									w.invariant("detector features: delete ratio %v outside [0,1]", f.DeleteRatio)
+								}
+							case "dclose":
+								if err := det.Close(); err != nil {
+									w.invariant("detector Close returned %v", err)
+								}
+								if !det.IsClosed() {
+									w.invariant("detector reports not closed after Close returned")
+								}
 							}
 							return ""
 						})
